@@ -15,7 +15,7 @@ META = {
         "recursive calls of the array arm are replaced by the contract itself (goto-instrument --enforce-contract-rec); for non-array tags the array loop is proved dead (unwindset 1 + unwinding assertion)",
         "arrays: NOT covered: the bounded stand-in h_art (real serialiser, deserialiser and heap.c) exhausts 12 GB even at depth 1 / count <= 1 and is not registered (see undecided_part)",
         "tags outside the transferable set (u8, bstring, struct, enum, union, function, tuple, hashmap, >= 0x0F) are serialised as the tag byte only and come back as void: recorded by C15.other.*, outside the property",
-        "C15.reqbuf.argc1 covers ONE scalar-or-string argument; vm_ffi_call_cop also silently drops arguments beyond the 16th (argc is sent as arg_count): not covered by an obligation",
+        "C15.reqbuf.argc1 covers ONE scalar-or-string argument and the LENGTH of the request that leaves the process, not its header bytes (reading the sent bytes back in the replaced cop_send contract exhausts 30 GB: seeded change C15b_1, which skips the header in the heap-buffer retry, is missed); vm_ffi_call_cop also silently drops arguments beyond the 16th (argc is sent as arg_count): not covered by an obligation",
         "C15.ser.string.anylen and C15.reqbuf.argc1 are EXPECTED to be refuted on the unchanged tree (uint32 wrap of 5+len for len >= 2^32-5; fixed 8192-byte request buffer); both reproduce natively (replay/replay_cop.c strser / args)",
         "C15.reply.accept proves on the real vm_ffi_call_cop: request sent + response header accepted by cop_recv_header (version 1, payload_len <= COP_MAX_PAYLOAD) with type FFI_RESULT + payload delivered completely + payload decodes to a transferable value => returns true, *result is exactly the decoded value (void for an empty payload), co-process kept.  The peer's reply is a ghost script (__verif_cop_peer, never assigned) handed out by the caller-view contracts of cop_recv_header / cop_recv_payload / cop_deserialize_value, so the clause also binds paths that never ask for the payload; receive-buffer malloc succeeds (framework assumption)",
     ],
@@ -82,7 +82,7 @@ def obligations(repo):
     # an undecided part of C15 (see META); their memory safety on arbitrary bytes is C16.deser.safe.array.
     # request buffer: vm_ffi_call_cop builds the request in uint8_t payload[8192]
     CREPL = ["cop_serialize_value", "cop_deserialize_value", "cop_send", "cop_recv_header", "cop_recv_payload", "vm_ffi_call", "vm_ffi_cop_start"]
-    obs.append(dict(id="C15.reqbuf.argc1", prop="C15", harness="harness/cop_call_h.c", entry="h_call", defines={"COP_REQBUF": 1, "VERIF_COP_MAX_SCALED": 32768}, mem_gb=30,
+    obs.append(dict(id="C15.reqbuf.argc1", prop="C15", harness="harness/cop_call_h.c", entry="h_call", defines={"COP_REQBUF": 1, "VERIF_COP_MAX_SCALED": 32768},
                     enforce="vm_ffi_call_cop", replace=CREPL, sources=["src/nanovm/cop_protocol.c"], unwind=8,
                     unwindset=["vm_ffi_call_cop_wrapped_for_contract_checking.0:4", "vm_ffi_call_cop_wrapped_for_contract_checking.1:3"],
                     strength="B(protocol constant COP_MAX_PAYLOAD scaled from 16 MiB to 32 KiB in the TU under proof)",
